@@ -142,7 +142,19 @@ func (r *Run) enabled(t *thread) bool {
 	case opLock:
 		return !t.on.(*Mutex).isLocked(r)
 	case opRLock:
-		return !t.on.(*RWMutex).hasWriter(r)
+		m := t.on.(*RWMutex)
+		if m.hasWriter(r) {
+			return false
+		}
+		// sync.RWMutex gives a waiting writer precedence: once a goroutine has called Lock,
+		// new RLock calls block until that writer is done (this is what makes recursive
+		// read locking deadlock-prone)
+		for _, u := range r.threads {
+			if u != t && u.started && !u.done && u.kind == opWLock && u.on == interface{}(m) {
+				return false
+			}
+		}
+		return true
 	case opWLock:
 		return t.on.(*RWMutex).free(r)
 	}
